@@ -145,7 +145,7 @@ mod verif_c14 {
   #[kani::stub(crate::devices::video::VideoState::cache_next_window_tile_row, noop_tile)]
   #[kani::stub(crate::devices::video::lcd::LCD::get_writing_buffer_line, stub_line)]
   fn c14_batch_2steps() { batch(2, true, 0, 70224); }
-  /// A 24-cycle batch from the last-but-one machine cycle of VBlank across the frame wrap into line 0
+  /// A 22-cycle batch (88 clocks: 8 to the end of VBlank, 80 of mode 2, entering mode 3) from the last-but-one machine cycle of VBlank across the frame wrap into line 0
   /// (start position concrete: a symbolic one did not finish in 30 min; enables, LYC and scroll registers stay symbolic).
   #[kani::proof]
   #[kani::unwind(30)]
@@ -154,7 +154,7 @@ mod verif_c14 {
   #[kani::stub(crate::devices::video::VideoState::cache_next_tile_row, noop_tile)]
   #[kani::stub(crate::devices::video::VideoState::cache_next_window_tile_row, noop_tile)]
   #[kani::stub(crate::devices::video::lcd::LCD::get_writing_buffer_line, stub_line)]
-  fn c14_batch_across_vblank_exit() { batch(24, true, 153 * 456 + 448, 153 * 456 + 452); }
+  fn c14_batch_across_vblank_exit() { batch(22, true, 153 * 456 + 448, 153 * 456 + 452); }
   /// A 6-cycle batch across the line-143 -> 144 hand-over.
   #[kani::proof]
   #[kani::unwind(12)]
@@ -327,11 +327,15 @@ mod verif_c15 {
     let mut oam = vec![0u8; 0xa0].into_boxed_slice();
     // object layouts: y places the object on line `ly`; tile / attributes symbolic where stated
     match layout {
-      1 => { // two overlapping objects, equal X then OAM order, flips and priority symbolic
-        let a1: u8 = kani::any(); let a2: u8 = kani::any();
-        oam[0] = ly.wrapping_add(16); oam[1] = 20; oam[2] = kani::any(); oam[3] = a1 & 0xf0;
-        oam[4] = ly.wrapping_add(16 - 3); oam[5] = 20; oam[6] = kani::any(); oam[7] = a2 & 0xf0;
-        oam[8] = ly.wrapping_add(16); oam[9] = 17; oam[10] = kani::any(); oam[11] = 0;
+      1 => { // two overlapping objects (X=20 beats X=22 where both are opaque); flips, palette and BG-priority of the first symbolic
+        let a1: u8 = kani::any();
+        // tile numbers concrete (their pixel data is symbolic anyway)
+        oam[0] = ly.wrapping_add(16); oam[1] = 20; oam[2] = 3; oam[3] = a1 & 0xf0;
+        oam[4] = ly.wrapping_add(16 - 3); oam[5] = 22; oam[6] = 5; oam[7] = 0x10;
+      }
+      3 => { // equal X: the lower OAM index wins; 8x16 rows with Y flip on the second
+        oam[0] = ly.wrapping_add(16); oam[1] = 40; oam[2] = 7; oam[3] = 0x00;
+        oam[4] = ly.wrapping_add(16 - 2); oam[5] = 40; oam[6] = 9; oam[7] = 0x50;
       }
       2 => { // eleven objects on the line: the 11th must not be drawn; two of the first ten are off-screen (X=0, X=168)
         let xs = [0u8, 168, 16, 32, 48, 64, 80, 96, 112, 128, 144];
@@ -370,7 +374,9 @@ mod verif_c15 {
   #[cfg(verif_thorough)]
   lineh!(c15_line_window_left, 0x30, 0, 0, 3, 2, 7, 0);
   #[cfg(verif_thorough)]
-  lineh!(c15_line_objects_8x16, 0x16, 0, 0, 0, 0, 9, 1);
+  lineh!(c15_line_objects_8x16, 0x16, 0, 0, 0, 0, 9, 3);
+  #[cfg(verif_thorough)]
+  lineh!(c15_line_objects_equal_x, 0x12, 0, 0, 0, 0, 5, 3);
 
   #[kani::proof]
   #[kani::unwind(10)]
